@@ -52,6 +52,12 @@ ProgRt2 == (1 :> <<Retain("none")>>) @@ (2 :> <<Ins(2, 21)>>) @@ (3 :> <<Ins2(1,
 ProgRt3 == (1 :> <<RetainF("even")>>) @@ (2 :> <<Ins2(1, 21)>>) @@ (3 :> <<Rem(1), Ins(1, 31)>>)
 \* ---- an overfull list bin in a short table: put calls try_presize(2n) (TT = 2): 2 -> 4 -> 8 bins
 ProgOvf == (1 :> <<Ins(3, 31)>>) @@ (2 :> <<Ins2(2, 22)>>) @@ (3 :> <<Get(1), Get(3)>>)
+\* ---- tree bins (TT = 2, MTC = 2, UT = 1): a list bin is treeified by the third colliding insert, removals turn it
+\*      back into a list ("too small" is nondeterministic between SMIN and SMAX), a resize splits / reuses it
+ProgTree1 == (1 :> <<Ins(3, 31), Rem(1)>>) @@ (2 :> <<Rem(2)>>) @@ (3 :> <<Get(3), Get(1)>>)
+ProgTree2 == (1 :> <<Ins(3, 31)>>) @@ (2 :> <<Ins(4, 41), Rem(3)>>) @@ (3 :> <<Get(4)>>)
+ProgTree3 == (1 :> <<Ins(4, 41)>>) @@ (2 :> <<Rem(1), Rem(2)>>) @@ (3 :> <<Get(3)>>)
+HashPair == [k \in 1..9 |-> IF k % 2 = 0 THEN 2 ELSE 0]
 Init3 == <<E(1, 10), E(2, 20), E(3, 30)>>
 Init1 == <<E(1, 10)>>
 Init2 == <<E(1, 10), E(2, 20)>>
